@@ -50,7 +50,7 @@ class Notifications(object):
             return
         touched = tmp.pop(height)
         for old in [h for h in tmp if h <= height]:
-            del tmp[old]
+            touched.update(tmp.pop(old))
         for old in [h for h in tbp if h <= height]:
             touched.update(tbp.pop(old))
         await self.notify(height, touched)
@@ -64,11 +64,11 @@ class Notifications(object):
         await self.notify(height, set())
 
     async def on_mempool(self, touched, height):
-        self._touched_mp[height] = touched
+        self._touched_mp.setdefault(height, set()).update(touched)
         await self._maybe_notify()
 
     async def on_block(self, touched, height):
-        self._touched_bp[height] = touched
+        self._touched_bp.setdefault(height, set()).update(touched)
         self._highest_block = height
         await self._maybe_notify()
 
